@@ -92,6 +92,11 @@ impl Transports {
         servers.push(("unix-path".to_string(), a.clone(), Server::start(t_service().0, &a, 1, 32, 0)));
         let a = format!("{};mode=0660", scratch.unix_addr("mode.sock"));
         servers.push(("unix-path;mode".to_string(), a.clone(), Server::start(t_service().0, &a, 1, 32, 0)));
+        // several `;` parameters, on a path and on an abstract name
+        let a = format!("{};mode=0600;owner=me;x", scratch.unix_addr("params.sock"));
+        servers.push(("unix-path;several-parameters".to_string(), a.clone(), Server::start(t_service().0, &a, 1, 32, 0)));
+        let a = format!("unix:@vl-c16p-{}-{};mode=0600;x=y", std::process::id(), seed);
+        servers.push(("unix-abstract;several-parameters".to_string(), a.clone(), Server::start(t_service().0, &a, 1, 32, 0)));
         let a = format!("unix:@vl-c16-{}-{}", std::process::id(), seed);
         servers.push(("unix-abstract".to_string(), a.clone(), Server::start(t_service().0, &a, 1, 32, 0)));
         let port = free_tcp_port(seed, 1);
@@ -257,7 +262,7 @@ fn part_a(ctx: &mut Ctx, cases: u32, skip: Vec<String>) {
     let strat = c01::seq_strategy(alphabet(), 1, 10);
     let r = pt::check_with(ctx, "c16a", cases, 100, 60_000, strat, |ctx, (syms, depth, style)| {
         ctx.case(if syms.len() >= 2 { Some(hash64(&(syms, depth))) } else { None });
-        ctx.class("A:sequence-over-6-transports");
+        ctx.class("A:sequence-over-8-transports");
         ctx.sample(|| c01::case_json(syms, *depth, *style, "all"));
         let h = run_case_a(&mut tr_cell.borrow_mut(), &svc, syms, *depth, *style, None)?;
         hung.set(hung.get() + h);
